@@ -104,6 +104,9 @@ TFailAll(s, e) ==
          ELSE Cl(e.r = s.started[i] + 1, "P04_executed_in_arrival_order_exactly_once")
          \cup Cl(~s.running[i], "P04_one_request_at_a_time")
          \cup Cl(~s.decided[i], "P11_no_execution_after_close_decision")
+         \* by the input alone: a Connection: close / HTTP/1.0 / refused request, a response that cannot be delimited
+         \* or that the application abandons - whatever was buffered behind it is never executed
+         \cup Cl(\A j \in 1..(e.r - 1) : j > NReq(s, i) \/ ~Req(s, i, j).mustclose, "P11_nothing_executed_after_an_exchange_that_must_close")
          \cup Cl(e.r < 1 \/ e.r > NReq(s, i) \/ ~Req(s, i, e.r).refuse, "P06_refused_request_never_reaches_application")
          \cup Cl(e.r < 1 \/ e.r > NReq(s, i) \/ (e.xk = ToString(e.r) /\ e.nx = 1), "P19_request_carries_only_its_own_fields")
          \cup Cl(e.r < 1 \/ e.r > NReq(s, i) \/ e.blen = Req(s, i, e.r).blen, "P19_request_body_intact")
@@ -133,6 +136,9 @@ TUpd(s, e) ==
     [] e.k = "app_end" /\ ConnIdx(e.c) \in 1..Len(s.cfg.conns) ->
          [s EXCEPT !.running[ConnIdx(e.c)] = FALSE, !.ended[ConnIdx(e.c)] = @ + 1]
     [] e.k = "flag" /\ ConnIdx(e.c) \in 1..Len(s.cfg.conns) ->
+         [s EXCEPT !.decided[ConnIdx(e.c)] = TRUE]
+    \* a send error reported to the caller is a client fault: from here on the connection is to be closed (C11)
+    [] e.k = "fault" /\ e.hard /\ ConnIdx(e.c) \in 1..Len(s.cfg.conns) ->
          [s EXCEPT !.decided[ConnIdx(e.c)] = TRUE]
     [] e.k = "torn" /\ ConnIdx(e.c) \in 1..Len(s.cfg.conns) ->
          [s EXCEPT !.tornBy[ConnIdx(e.c)] = Append(@, e.what)]
